@@ -163,20 +163,7 @@ def run_async(desc, tier, seed, res):
             return [d for (t, d) in sim.dev.writes]
         return [d for (t, d) in sim.dev.transport.written]
 
-    async def main(sim):
-        await sim.connect()
-        d = sim.driver
-        for c in cmds:
-            n0 = len(writes())
-            try:
-                # the frame itself, without the library's ENABLE DEVICE TYPE prefix (that is C15's subject)
-                if driver in ("tridonic", "hasseb"):
-                    results[len(marks)] = await asyncio.wait_for(d._send_raw(c), 5.0)
-                else:
-                    results[len(marks)] = await asyncio.wait_for(d.send(c), 5.0)
-                marks.append((c, n0, len(writes()), None))
-            except Exception as e:
-                marks.append((c, n0, len(writes()), e))
+    async def refuse_all(d):
         # unsupported frame lengths must be refused before anything is written
         for nbits in (1, 7, 8, 9, 12, 15, 17, 20, 23, 25, 32, 64):
             if (driver, nbits) in (("sci", 8),):
@@ -193,6 +180,25 @@ def run_async(desc, tier, seed, res):
                 bad_len.append((nbits, "accepted-and-hung", len(writes()) - n0))
             except Exception as e:
                 bad_len.append((nbits, type(e).__name__, len(writes()) - n0))
+
+    async def main(sim):
+        await sim.connect()
+        d = sim.driver
+        if desc["mode"] == "seq":
+            # refusals first: a refused command must leave nothing behind that a later send (hundreds later) trips over
+            await refuse_all(d)
+        for c in cmds:
+            n0 = len(writes())
+            try:
+                # the frame itself, without the library's ENABLE DEVICE TYPE prefix (that is C15's subject)
+                if driver in ("tridonic", "hasseb"):
+                    results[len(marks)] = await asyncio.wait_for(d._send_raw(c), 5.0)
+                else:
+                    results[len(marks)] = await asyncio.wait_for(d.send(c), 5.0)
+                marks.append((c, n0, len(writes()), None))
+            except Exception as e:
+                marks.append((c, n0, len(writes()), e))
+        await refuse_all(d)
         return True
 
     out, stalled = sim.run(main)
